@@ -136,7 +136,21 @@ func VerifC18_PoolNewestFirst() {
 			lastDel, any = true, true
 			seq++
 		case 2:
-			p.SwitchToNewMemTable()
+			// a reader (a scan, a flush) that took the list of tables before the switch keeps looking at the same
+			// tables afterwards: the list it was handed is its own
+			before := p.GetMemTables()
+			saved := append([]*MemTable(nil), before...)
+			sealed := p.SwitchToNewMemTable()
+			vsym.Assert(len(before) == len(saved), "a table list handed out earlier changed its length at a switch")
+			for j := range saved {
+				vsym.Assert(before[j] == saved[j], "a table list handed out before a switch shows other tables after it (a reader loses the oldest table)")
+			}
+			vsym.Assert(len(saved) == 0 || sealed == saved[0], "the switch sealed another table than the active one")
+			after := p.GetMemTables()
+			vsym.Assert(len(after) == len(saved)+1 && after[0] != sealed, "after a switch the list does not start with a new active table followed by the old ones")
+			for j := range saved {
+				vsym.Assert(after[j+1] == saved[j], "after a switch the older tables are not listed newest first behind the new active one")
+			}
 		}
 	}
 	got, found := p.Get(k)
